@@ -77,6 +77,9 @@ mod sender;
 mod uri_params;
 mod write_fut;
 
+#[cfg(feature = "verif_hooks")]
+pub mod verif;
+
 pub use external_links::LinksTaskConfig;
 pub use init::{AgentInitTask, InitTaskConfig};
 use tokio::sync::{mpsc, oneshot};
